@@ -566,15 +566,22 @@ def replay(spec, path, work):
     obj = json.load(open(path))
     ops = obj.get("ops") or obj.get("shrunk_ops") or []
     eng = next((e for e in spec["engines"] if e["harness"] == obj.get("engine")), spec["engines"][0])
-    rc, o, binpath = go_build(eng["harness"], work)
+    rc, o, binpath = go_build(eng.get("cmd", eng["harness"]), work)
     if rc != 0:
         log(o); return 2
+    for extra in eng.get("also_build", []):
+        go_build(extra, work)
+    HARNESS_ENV.pop("VERIF_REF", None)
+    if eng.get("ref"):
+        rcr, orr, refpath = build_ref(eng["ref"], work)
+        if rcr == 0:
+            HARNESS_ENV["VERIF_REF"] = refpath
     lake_build([eng["driver"]])
-    p = os.path.join(work, "replay.ops")
+    p = os.path.join(work, "replay.in")
     cfg = cfg_line_for(eng.get("flags", []))
     with open(p, "w") as f:
         f.write(cfg + "\n" + "\n".join(ops) + "\n")
-    rc, o, opsf, impl, meta = run_harness(binpath, work, "replay", 0, "quick", replay=p)
+    rc, o, opsf, impl, meta = run_harness(binpath, work, "replay", 0, "quick", replay=p, extra_args=eng.get("args"))
     rcd, model = run_driver(eng["driver"], opsf)
     il, ol = read_lines(impl), read_lines(opsf)
     bad = False
